@@ -1,7 +1,7 @@
 #!/bin/bash
 # verify_mut.sh <ID> <k>: confirm a sub-agent's mutant in its scratch worktree:
 # builds, passes the unedited suite, demo fails with the change and passes without.
-ID=$1; K=$2; W=/tmp/wt/$ID; M=$W/mutants
+ID=$1; K=$2; W=/tmp/wt/$ID; M=$W/${MUTDIR:-mutants}
 export GOFLAGS=-mod=mod GOPROXY=off GOSUMDB=off
 cd $W || exit 2
 git checkout -q -- . ; rm -f $W/m*_demo_test.go
